@@ -277,6 +277,26 @@ def oracle(ctx, obs):
                     ctx.violation("S5", f"sweep: raw value {raw[k]!r} differs from the JSI at the centre of the individually built setup {per[k]!r}",
                                   {"kind": "sweep_raw"}, dict(detail, k=k))
                     break
+            # same reference (C20_sweep_is_spectrum): a swept setup whose optimum is the base's optimum gets from the sweep the value
+            # its own JointSpectrum reports at its centre; compared only where the two optimised setups are equal bit for bit
+            fb = swp.get("from_base")
+            if fb:
+                n0 = [f64_of_hex(x) for x in fb["normalized"]]
+                for k, own in enumerate(fb["own"]):
+                    if not own["same_opt"] or k >= len(n0):
+                        ctx.count("sweep_spectrum_other_optimum")
+                        continue
+                    v = f64_of_hex(own["jsi_n"])
+                    if v != v or n0[k] != n0[k] or v in (float("inf"), float("-inf")):
+                        ctx.count("sweep_spectrum_nonfinite_left_to_C17")
+                        continue
+                    ctx.cov["evaluations"] += 1
+                    ctx.count("sweep_spectrum_same_optimum")
+                    if not close(n0[k], v):
+                        ctx.violation("S5", f"sweep: normalised value {n0[k]!r} of a setup whose optimum is the base's optimum differs from "
+                                      f"the value {v!r} its own JointSpectrum::jsi_normalized reports at its centre",
+                                      {"kind": "sweep_vs_spectrum"}, dict(detail, k=k))
+                        break
         elif swp and cc.error_class(swp.get("msg", "")) == "err:impossible_period" and str(swp.get("loc", "")).startswith("src/jsa/joint_spectrum.rs"):
             # one of the swept setups has no optimum (its crystal is shorter than the period it needs) and JointSpectrum::new unwraps
             # try_as_optimum: the known C17 finding F7d, not a statement about normalisation
